@@ -28,7 +28,7 @@ TEXT_ALLOW = {
 }
 
 
-def enc_rule(repo, res, rule="ENC"):
+def enc_rule(repo, res, rule="ENC", tier="quick"):
     for mod in RE.EMITTERS:
         fq = f"{mod}::make_string_constant"
         fn = repo.fn(fq)
@@ -40,7 +40,7 @@ def enc_rule(repo, res, rule="ENC"):
             res.undecided(rule, f"{rule}:{fq}", "encoder is not a recognisable replace chain (cannot decide)", fn.loc())
             continue
         prefix, suffix, chain = ch
-        ok, cex, stats = X.check(chain, prefix, suffix, mod, identity=True)
+        ok, cex, stats = X.check(chain, prefix, suffix, mod, identity=True, alphabet=X.THOROUGH_ALPHABET if tier == "thorough" else None)
         desc = " -> ".join(f"{a!r}=>{b!r}" for a, b in chain)
         if ok:
             res.ok(rule, f"{rule}:{fq}", f"for all strings: {mod} reads {prefix}{{{desc}}}{suffix} back as the original text, closed and inert ({stats['states']} product states, {stats['edges']} transitions, alphabet of {stats['alphabet']} classes)", fn.loc())
@@ -93,7 +93,7 @@ def sink_rule(repo, res, ty, rule="SINK"):
 
 def run(repo, res, tier):
     ty = TY.Typer(repo, RE.ROARING_DIMS)
-    enc_rule(repo, res)
+    enc_rule(repo, res, tier=tier)
     n = sink_rule(repo, res, ty)
     from . import sk_bash
     sk_bash.quote_rule(repo, res, tier)
